@@ -23,6 +23,9 @@ def py_value(j):
     k = j['k']
     if k == 'num':
         return j['n'] if j['d'] == 1 else (j['n'] // j['d'] if j['n'] % j['d'] == 0 else j['n'] / j['d'])
+    if k == 'numup':
+        import math
+        return math.nextafter(float(j['n'] / j['d']), math.inf)
     if k == 'text':
         return ''.join(chr(c) for c in j['c'])
     if k == 'date':
@@ -36,7 +39,7 @@ def py_value(j):
 
 def literal(j):
     k = j['k']
-    if k == 'num':
+    if k in ('num', 'numup'):
         v = py_value(j)
         return repr(v) if v >= 0 else f'({v!r})'
     if k == 'text':
@@ -275,7 +278,7 @@ def check(run):
                         'negative number only the laws are demanded', 'pure dates are supplied by override only (openpyxl delivers date-times)']
     fine = 'FALSE' if run.quick else 'TRUE'
     run.tlc('MC_XlCompare', ['INIT Init', 'NEXT Next', f'CONSTANT Fine = {fine}', 'INVARIANT OracleLawful', 'INVARIANT OracleSymmetricScope',
-                             'INVARIANT Transitive', 'INVARIANT Reflexive', 'INVARIANT NumbersExact', 'INVARIANT BlankClauses',
+                             'INVARIANT Transitive', 'INVARIANT Reflexive', 'INVARIANT NumbersExact', 'INVARIANT OneStepUp', 'INVARIANT BlankClauses',
                              'INVARIANT DateEqualsMidnight'], workers=8, timeout=1200)
     gen(run)
     trace(run)
